@@ -1,4 +1,4 @@
 SPECIFICATION Spec
-CONSTANTS SS = 4 Lens = {0, 1, 4, 5, 9} AliasFix = TRUE OmitFix = TRUE HdrLimit = "ok"
-INVARIANTS NotBad WrapUnwrapAgree
+CONSTANTS SS = 4 Lens = {0, 1, 4, 5, 9} AliasFix = TRUE OmitFix = TRUE WipesKey = FALSE HdrLimit = "ok"
+INVARIANTS NotBad WrapUnwrapAgree CacheIntact
 CHECK_DEADLOCK FALSE
